@@ -16,7 +16,7 @@ TEXT = {
          'level': 'Wake and unmark are shown to lie on every exit of the computing caller including exception and cancellation edges at every '
                   'await; the awaited object of every waiter is reconstructed symbolically per path and must be the bridged wait on the '
                   'event\'s own loop, bounded by a literal timeout <= 60 whose expiry, like a bridge failure, leads back to the retry head; '
-                  'dead marker loops always lead to take-over; the Event set at the wake-up is, by creation site along the path, the very Event stored in the marker of this activation.',
+                  'dead marker loops always lead to take-over; the Event set at the wake-up is, by creation site along the path, the very Event stored in the marker of this activation, and no event is set before the activation published its own marker.',
          'note': COMMON_NOTE + '"promptly"/scheduling latency, fairness; asyncio internals.'},
  'C06': {'ref': '4.A C06', 'technique': TECH + 'reachability from exception edges, control dependence of re-raise, effect sets',
          'level': 'No exception/cancel edge of the wrapped call reaches the cache store; failures leave only by raising; marker removal is '
@@ -31,13 +31,13 @@ TEXT = {
  'C02': {'ref': '4.B C02', 'technique': 'static analysis: affine abstract interpretation of counter/lock depth over all CFG paths, who-may-write rule, flag folding over sibling overrides, call-site result-use rule',
          'level': 'acquire() is interpreted abstractly on every path: success is reported only with the thread lock held one level deeper and the descriptor set; '
                   'the descriptor attribute has exactly three writers and is set only after a successful OS lock on a descriptor opened in the same activation; '
-                  'every concrete _lock is folded over block in {True, False} and must be exclusive flock / msvcrt.locking; release order and the use of acquire()\'s result at every call site are checked; release() never gives back more thread-lock levels than are held; only the two OS helpers close a descriptor.',
+                  'every concrete _lock is folded over block in {True, False} and must be exclusive flock / msvcrt.locking; release order and the use of acquire()\'s result at every call site are checked; release() never gives back more thread-lock levels than are held; only the two OS helpers close a descriptor; the with-body of `with lock:` / acquire_ctx() is entered only through the success edge of acquire().',
          'note': COMMON_NOTE + 'the kernel\'s flock semantics (trusted), NFS emulation, free-running multi-process contention.'},
  'C12': {'ref': '4.B C12', 'technique': 'static analysis: path-sensitive affine interpretation (a*c+b over the entry depth c) with case splits, sign-domain evaluation of the argument normalisation, path rules under an OSError fault model',
          'level': 'For every path through acquire/release (helpers inlined, loops checked for a fixpoint, range(<linear>) loops multiplied out) the exit state must satisfy '
                   'counter - depth = 0 with the method-specific deltas; the OS release is reached only for c == 1 or force; unheld release has no effect node; '
                   'descriptor open/close pairing follows OSError edges; the 8-row normalisation table of (blocking, timeout) is evaluated abstractly; '
-                  'the same table is folded for 42 concrete samples; acquire_ctx forwards its arguments slot by slot; non-blocking and timed shapes of the poll loop are path rules.',
+                  'the same table is folded for 42 concrete samples; acquire_ctx forwards its arguments slot by slot; non-blocking and timed shapes of the poll loop are path rules; the outermost and the forced release give the lock up entirely; __exit__ / acquire_ctx release on every exit; the counter starts at 0.',
          'note': COMMON_NOTE + 'elapsed time; release by a non-owner thread (outside the contract). Precondition assumed: counter == depth held by the caller.'},
  'C13': {'ref': '4.B C13', 'technique': 'static analysis: effect rule (forbidden-call scan with positive control), constant folding of the open mode, primitive classification',
          'level': 'A crash-point quantifier is covered by a no-persistent-state argument: filelock.py contains no unlink/rename/pid-file/exists/atexit/signal machinery '
@@ -47,7 +47,7 @@ TEXT = {
          'level': 'In the batch task every completion inside the result loop must target the future registered under the yielded key of the same iteration; '
                   'the isinstance(result, Exception) branch decides the completion kind; every path entry -> exit (normal and exc:Exception edges) '
                   'passes the fan-out sweep or the missing-key sweep (or leaves the dict empty); answered futures leave the dict; callers await their key\'s future; '
-                  'the dispatcher spawns and never awaits a batch; nothing before the protected region can fail and no handler reads a possibly-unbound local.',
+                  'the dispatcher spawns and never awaits a batch; nothing before the protected region can fail and no handler reads a possibly-unbound local; the dispatcher never re-raises a task outcome; the shared futures live in a strong dict owned by the instance.',
          'note': COMMON_NOTE + 'scheduling of the dispatcher task; outcomes for keys yielded twice / unknown keys (surface as a batch failure today - note).'},
  'C09': {'ref': '4.D C09', 'technique': 'static analysis: cancellation-sharing typestate (which awaits can cancel a shared future), control dependence of completions on done()',
          'level': 'Task.cancel() cancels what the task awaits: every await of a future reachable through the retention cache must be behind asyncio.shield, '
@@ -57,11 +57,11 @@ TEXT = {
  'C10': {'ref': '4.D C10', 'technique': TECH + 'dominance of growth sites by the size guard, no-suspension, who-may-call for the batch function and semaphore, container-kind rules',
          'level': 'Every growth of the batch list is dominated since the previous growth by len(list) < max_batch_size; the bulk growth is an islice bounded by max_batch_size - len(list) with no suspension after the guard; '
                   'the only zero-length return is the tabled closed-loop branch; the batch function is called only inside async with <semaphore built from max_concurrent_batches>; '
-                  'asyncio.Queue + append/extend + one assembler in one dispatcher give FIFO; the bounded wait is wait_for(queue.get(), self.batch_timeout) whose TimeoutError ends the batch and whose item joins it.',
+                  'asyncio.Queue + append/extend + one assembler in one dispatcher give FIFO; the bounded wait is wait_for(queue.get(), self.batch_timeout) whose TimeoutError ends the batch and whose item joins it; a batch is handed on only when full or timed out.',
          'note': COMMON_NOTE + 'dispatch latency and who shares a batch in time (timer magnitudes).'},
  'C11': {'ref': '4.D C11', 'technique': TECH + 'atomic-section (no suspension between miss and store), must-pass-through eviction on all exits, def-use of the delay',
          'level': 'No suspension point lies between the KeyError edge of the retention lookup and the store of the new future; only that path enqueues, with the same key and future; '
-                  'every exit after the enqueue (normal, exception, cancel) passes del/pop or call_later(self.retention_timeout, cache.pop, key); the hit path mutates nothing; default key is str(arg). '
+                  'every exit after the enqueue (normal, exception, cancel) passes del/pop or call_later(self.retention_timeout, cache.pop, key); the hit path mutates nothing; an immediate eviction is reached only when the retention test found no window; the cache is a strong per-instance dict; default key is str(arg). '
                   'The await of Queue.put is accepted as non-suspending only while the queue is constructed unbounded (re-checked on every run).',
          'note': COMMON_NOTE + 'window lengths in time.'},
  'C15': {'ref': '4.D C15', 'technique': 'static analysis: set comparison partial-keywords vs keyword-only parameters over sibling decorators, def-use chains, registry shape',
@@ -72,12 +72,12 @@ TEXT = {
          'level': 'The completion flag is settable only on the normal edge of the wrapped call; the round set is bound once and only grows; an Exception of the call is contained and leads back to the round loop; '
                   'every dequeue (3 sites) flows into a loader coroutine that is gathered before the list is cleared or the timer awaited; the loader contains producer failures and records each element as it arrives; '
                   'every entry point makes exactly one thread-safe hand-off with its adaptor; any-thread code touches the asyncio.Queue only via call_soon_threadsafe and must not mutate the loop-owned flag '
-                  '(today violated by _put: known finding F5); no suspension between set() and the round-loop test; a successful call always sets the flag.',
+                  '(today violated by _put: known finding F5); no suspension between set() and the round-loop test; a successful call always sets the flag; loaders are gathered before their list is cleared or re-bound.',
          'note': COMMON_NOTE + '"eventually" in time; asyncio.Queue / wait_for internals; exactly-once for foreign-thread submissions (not promised).'},
  'C07': {'ref': '4.C C07', 'technique': TECH + 'ordering rule in wait(), atomic-section rule (clear+task_done before next suspension), get/task_done pairing typestate, cancel-transparency of handlers in the daemon',
          'level': 'wait() joins the queue then waits for the flag with nothing suspending afterwards; after the blocking get the flag is cleared and the producer marked done before the daemon can be suspended; '
                   'each successful dequeue is paired with exactly one task_done; wait() cancels only the pending timed read under cancel=True; Timeout and Cancelled edges of the timed read both flush; '
-                  'every handler in the daemon\'s coroutines that can catch a cancellation delivered at a suspension point must re-raise (3 swallow it today: known finding F6); the flag starts out set.',
+                  'every handler in the daemon\'s coroutines that can catch a cancellation delivered at a suspension point must re-raise (3 swallow it today: known finding F6); the flag starts out set; the drain generator is never consumed by something that can stop early.',
          'note': COMMON_NOTE + 'asyncio\'s FIFO ready queue and Queue.join (trusted); liveness in time.'},
  'C08': {'ref': '4.C C08', 'technique': TECH + 'who-may-call rule for the wrapped function, control dependence on the non-empty test, must-pass-through of a fresh timer, def-use of the timeout',
          'level': 'The wrapped function has one awaited call site inside the single daemon (spawned once); the call is control-dependent on the truthiness of the set passed; '
